@@ -297,6 +297,22 @@ theorem purchase_reference (b : Book) (id : String) (startedAt : Int) (shares : 
       | none => simp at hl
       | some x => simp
 
+/-- one more connection under the same worker name (a rig reconnecting, a second rig of the worker, another seller miner pointed
+at the contract) leaves what was measured untouched: the last share and the work credited so far are still reported -/
+theorem connect_keeps_the_record (b : Book) (w v : String) : load (onConnect b w) v = load b v ∨ (load b v = none ∧ v = w) := by
+  unfold onConnect initRec
+  cases h : load b w with
+  | some r => simp
+  | none =>
+    simp only [Option.isSome_none, Bool.false_eq_true, if_false]
+    rw [load_append]
+    cases hv : load b v with
+    | some x => simp
+    | none =>
+      by_cases hw : w = v
+      · right; exact ⟨rfl, hw.symm⟩
+      · left; simp [hw]
+
 /-- without the `Reset` a record left behind survives `Initialize` (it is a `LoadOrStore`): a share that arrived after the
 previous purchase's watcher had gone would date the new purchase's silence -/
 theorem stale_record_survives_without_reset :
@@ -326,6 +342,11 @@ end book
 /-- left unset, the grace period is one and a half delivery cycles *of the configured length* -/
 theorem source_grace_default : PRV.Gen.Wiring.graceDefault =
     ("cfg.Hashrate.ValidationTimeoutAppStart == 0", "time.Duration(1.5 * float64(cfg.Hashrate.CycleDuration))") := by decide
+
+/-- the destination-failure signal always ends the validation with `ErrContractDest`, whatever the stored description of the
+failure has become meanwhile (the controller clears it after every event it handles): the signal is the closed channel -/
+theorem source_dest_failure_always_ends_validation : PRV.Gen.C10.destFailureBranch =
+    ["err := p.contractErr.Load()", "p.contractErrCh = make(chan struct{})", "return lib.WrapError(ErrContractDest, err)"] := by decide
 
 /-- which covers a whole cycle for every cycle length (in ns, truncation included): a seller that reconnects at its next
 cycle after a validator restart is inside the grace period -/
